@@ -218,8 +218,9 @@ def parseSegs {P : Type} (valid : Bytes → Bool) (dec : Bytes → Option P) (to
       if sg = STATE then
         match it2 with
         | [] => inv .topic
-        | h :: _ =>
+        | h :: rest =>
           if !valid h then inv .utf8
+          else if !rest.isEmpty then inv .topic            -- `iter.next().is_some()`
           else
             match parseCert valid payload with
             | some (online, ts) => .state h online ts
